@@ -462,7 +462,7 @@ func RunOps(ops []string) []string {
 			out[i] = tarFault(filepath.Join(dir, fmt.Sprintf("tar%d", i)), f)
 			continue
 		}
-		if f[0] == "cw" || f[0] == "csnap" || f[0] == "cdel" || f[0] == "copy" {
+		if f[0] == "cw" || f[0] == "csnap" || f[0] == "cdel" || f[0] == "copy" || f[0] == "copyagain" {
 			if ce == nil {
 				out[i] = "bad-op"
 				continue
@@ -589,6 +589,8 @@ func copyStep(ce *copyh.Env, f []string) (out string) {
 		return ce.Delete(f[1], i64(f[2]), i64(f[3]))
 	case "copy":
 		return ce.Copy(f[1], strings.Split(f[2], ";"), strings.Split(f[3], ","))
+	case "copyagain":
+		return ce.CopyAgain(f[1], strings.Split(f[2], ";"), strings.Split(f[3], ","))
 	}
 	return "bad-op"
 }
